@@ -14,7 +14,8 @@ Require Import String.
 Require Import Arith Lia List Bool ZArith QArith Qcanon.
 From TK Require Import Mat_Sums Mat_Core Mat_Qc Mat_EigSelect EigSelect Mat_EigSelect_Tie
                        Proj_Model Proj_Spec Proj_Proof
-                       Pca_Model Pca_Spec Pca_Proof Pca_Proof_Qc Spectral_KyFan Pca_Proof_Opt Spectral_Randomized Pca_Proof_Select Pca_Proof_Sign.
+                       Pca_Model Pca_Spec Pca_Proof Pca_Proof_Qc Spectral_KyFan Pca_Proof_Opt Spectral_Randomized Pca_Proof_Select Pca_Proof_Sign
+                       PcaEmbed Pca_Tie.
 Import ListNotations.
 Local Open Scope nat_scope.
 
@@ -105,6 +106,23 @@ Example C06_select_largest_nonvacuous :
   exists b, In b eig_table /\ b_largest b = true /\ b_base b = BaseN /\
             b_fn b = "eigendecomposition_impl_dense"%string.
 Proof. eexists. split; [left; reflexivity|]. repeat split. Qed.
+
+(* 5b. T-pca: the statement chain of PrincipalComponentAnalysisImplementation::embed() in the tree
+       being checked (locals alpha-renamed) is mean -> covariance(mean) ->
+       eigendecomposition_via(LargestEigenvalues, covariance, target_dimension) ->
+       (project(P, mean), MatrixProjectionImplementation(P, mean)), eigendecomposition_via forwarding
+       strategy and matrix unchanged; and the model's pca_embed is that composition *)
+Theorem C06_embed_chain :
+  pca_embed_stmts = pca_chain_expected /\ eigendecomposition_via_returns = via_expected.
+Proof. exact pca_embed_chain. Qed.
+Print Assumptions C06_embed_chain.
+
+Theorem C06_pca_embed_is_composition :
+  forall (F : Type) (Fo : FieldOps F) (N D : nat) (X V : mat F) (v : view),
+    pca_embed N D X V v =
+      (pca_embedding N D X (select_cols V v), (select_cols V v, mean_vec N X), pca_matrix N X).
+Proof. exact @pca_embed_is_composition. Qed.
+Print Assumptions C06_pca_embed_is_composition.
 
 (* 6. the embedding is the centred data times P, and its columns have zero mean *)
 Theorem C06_pca_embedding :
